@@ -60,7 +60,8 @@ ASSUMPTIONS = [
     "excluded from the main sub-spaces and explored by the gated sub-spaces X1-X3 once known_findings.json has the "
     "corresponding open entry (see proposed_fixes/C03-NOTES.md): a divisions change inside a measure at a time where "
     "nothing starts or ends; a fermata on the right barline of a measure that is followed by another measure; plain "
-    "score.Words objects",
+    "score.Words objects; X4 (trigger redundant_divisions_entry, proposed_fixes/C03-s-redundant-divisions-entry.diff): a "
+    "divisions table with an entry that repeats the value before it",
     "lxml parsing/serialisation is trusted; the independent reader pairs ties by pitch and time",
 ]
 CHUNK = 40
@@ -358,6 +359,12 @@ def spaces(tier, seed):
     if "right_barline_fermata_before_next_measure" in known:
         sp.append(Space("X2-right-barline-fermata-inner", G.gen_X_right_fermata, True,
                         "fermata on the right barline of a measure that is followed by another measure"))
+    if True:  # (was a proposed finding; repaired in /repo, so the space always runs)
+        sp.append(Space(bname("X4-redundant-divisions-entry"), blk(G.gen_X_redundant_divisions), True,
+                        btxt + "a divisions table with an entry that repeats the value before it (left behind when set_quarter_duration "
+                        "replaces a value): uniform divisions 1-3 over a 2/4 measure / two 1/4 measures, and three 1/4 measures with "
+                        "divisions (1,2,2),(2,2,1),(2,1,1),(1,1,2); cores of <=2 notes of voice 1; every declaration history (as D3) "
+                        "that ends in that table"))
     if "plain_words_object" in known:
         sp.append(Space("X3-words-objects", G.gen_X_words, True, "a score.Words object at every grid time of every 1-note core"))
     return sp
@@ -371,6 +378,7 @@ TRIGGERS = {
     "divisions_change_without_time_point": _any_score(G.has_divisions_change_without_point),
     "right_barline_fermata_before_next_measure": _any_score(G.has_inner_right_fermata),
     "plain_words_object": _any_score(G.has_words_object),
+    "redundant_divisions_entry": _any_score(G.has_redundant_divisions_entry),
 }
 
 if __name__ == "__main__":
